@@ -40,7 +40,7 @@ OBLIGATIONS = {"period:valid": 300, "period:missing": 100, "period:gap-missing":
                "unit:ns": 20, "tz:utc": 20, "tz:+10": 20, "era:outside-int32-seconds": 20,
                "era:across-epoch": 3, "kernel:prefilled-buffer": 50,
                "era:beyond-nanosecond-range": 5, "process-tz:non-utc": 50,
-               "record-longer-than-2^31-seconds": 2}
+               "record-longer-than-2^31-seconds": 2, "long-interval:accepted-by-maxgapsec": 2}
 
 T0 = 946684800      # 2000-01-01 00:00:00 UTC
 
@@ -395,6 +395,17 @@ def run(ctx):
                            "maxgapsec": 5 * 86400, "rainfall": rainfall,
                            "variants": [["ns", "naive"], ["ns", zone], ["s", zone],
                                         ["us", "utc"]]})
+        if it0 % 25 == 13:
+            j = it // 25
+            run_long_span(ctx, {"kind": "longspan", "seed": int(rng.integers(0, 2 ** 31)),
+                                "P": [3600, 1800][j % 2], "unit": ["ns", "s", "us"][j % 3],
+                                "tz": ["naive", "utc"][j % 2], "rainfall": bool((j // 2) % 2),
+                                "start": [0, -946771200, 86400 * 365][j % 3],
+                                "span": [1500000000, 2 ** 31 - 7200, 120000000,
+                                         1000000000][j % 4],
+                                "maxgapsec": 2 ** 31 - 1,
+                                "near_boundary": [int(rng.integers(1, 22)),
+                                                  int(rng.integers(1, 22))]})
         if it0 % 25 == 3:
             j = it // 25
             run_long_span(ctx, {"kind": "longspan", "seed": int(rng.integers(0, 2 ** 31)),
@@ -415,7 +426,7 @@ def run_long_span(ctx, case):
     rng = np.random.default_rng(int(case["seed"]))
     P = int(case["P"])
     unit, tz = case["unit"], case["tz"]
-    maxgap = 5 * 86400
+    maxgap = int(case.get("maxgapsec", 5 * 86400))
     rainfall = bool(case["rainfall"])
     t0 = int(case["start"])
     span = int(case["span"])
@@ -424,6 +435,13 @@ def run_long_span(ctx, case):
     c2 = t0 + span + np.concatenate([[0], np.cumsum(rng.choice([600, 1800, 3600, 9000],
                                                                size=30))])
     c2 = c2 + (c1[0] - t0)
+    if case.get("near_boundary"):
+        # the two observations on either side of the long interval lie a few seconds from
+        # a period boundary
+        d1, d2 = [int(v) for v in case["near_boundary"]]
+        c1[-1] = max((c1[-1] // P) * P + P - d1, c1[-2] + 1)
+        c2[0] = (c2[0] // P) * P + d2
+        ctx.tag("long-interval:ends-seconds-from-a-boundary")
     stamps = np.concatenate([c1, c2]).astype(np.int64)
     vals = rng.integers(0, 40, size=len(stamps)) / 4.0
     ctx.evaluated()
@@ -452,10 +470,27 @@ def run_long_span(ctx, case):
     i1 = int((c1[-1] - hstart) // P) + 2
     i2 = int((c2[0] - hstart) // P) - 2
     mid = ov[i1 + 200:i2 - 200]
-    ctx.check("var2h.gap-missing", bool(np.all(np.isnan(mid))) and len(mid) > 1000,
-              "var2h|not-missing|gap|long-record", case,
-              lambda: {"n_periods_in_gap": int(len(mid)),
-                       "not_missing": int(np.isfinite(mid).sum())})
+    if int(c2[0] - c1[-1]) > maxgap:
+        ctx.check("var2h.gap-missing", bool(np.all(np.isnan(mid))) and len(mid) > 1000,
+                  "var2h|not-missing|gap|long-record", case,
+                  lambda: {"n_periods_in_gap": int(len(mid)),
+                           "not_missing": int(np.isfinite(mid).sum())})
+    else:
+        # an interval the caller accepts as valid (maxgapsec raised): interpolated
+        ctx.tag("long-interval:accepted-by-maxgapsec")
+        ctx.check("var2h.long-interval-interpolated", bool(np.all(np.isfinite(mid))) and
+                  len(mid) > 1000, "var2h|missing|accepted-long-interval", case,
+                  lambda: {"n_periods": int(len(mid)), "missing": int(np.isnan(mid).sum())})
+        # a sample of periods inside the long interval
+        for i in rng.integers(i1, i2, size=40):
+            S = int(osec[int(i)])
+            status, ref = integrate(stamps, vals, S, S + P, rainfall, maxgap)
+            got = float(ov[int(i)])
+            if status == "valid":
+                ctx.check("var2h.period-average", (not math.isnan(got)) and
+                          abs(got - ref) <= 1e-9 * max(abs(ref), 1e-5),
+                          "var2h|value|long-record", case,
+                          lambda: {"period": int(i), "start": S, "got": got, "expected": ref})
     for i in list(range(0, i1)) + list(range(i2, len(osec) - 1)):
         S = int(osec[i])
         status, ref = integrate(stamps, vals, S, S + P, rainfall, maxgap)
